@@ -493,7 +493,8 @@ func validCase(c Case) error {
 }
 
 // entryScript assembles "if the stack is empty { push path, push acct }, body".
-func (w *world) entryScript(c Case) []byte {
+// emitArgs pushes the arguments of the generic routine for a case: the path, then the account.
+func (w *world) emitArgs(b *asm.B, c Case) {
 	path := []any{}
 	for _, h := range c.Hops {
 		switch h.Kind {
@@ -523,8 +524,6 @@ func (w *world) entryScript(c Case) []byte {
 	if c.Leaf == LeafGas {
 		path = append(path, []any{skGasLeaf, w.keys[2].Hash.BytesBE(), 0})
 	}
-	b := asm.New()
-	b.Op(opcode.DEPTH).Jmp(opcode.JMPIFL, "run") // loaded as a dynamic script: the arguments are on the stack already
 	b.Any(path)
 	switch {
 	case c.Acct.Ref == RefEntry:
@@ -535,6 +534,12 @@ func (w *world) entryScript(c Case) []byte {
 	default:
 		b.Bytes(w.resolve(c.Acct.Ref, util.Uint160{}).BytesBE())
 	}
+}
+
+func (w *world) entryScript(c Case) []byte {
+	b := asm.New()
+	b.Op(opcode.DEPTH).Jmp(opcode.JMPIFL, "run") // loaded as a dynamic script: the arguments are on the stack already
+	w.emitArgs(b, c)
 	b.Label("run")
 	b.Raw(w.body)
 	return b.Script()
